@@ -127,12 +127,12 @@ Proof.
   intros Hsg Hne.
   assert (Sv : sign_val sg = lit_sign (match sg with [45] => true | _ => false end)) by (destruct Hsg as [->|[->| ->]]; reflexivity).
   split; [|split].
-  - intros m Hm Hd. unfold bn_from_text. destruct (split_int is_bindigit 98 66 sg m ds Hsg Hm Hne Hd) as (E1 & E2).
+  - intros m Hm Hd. unfold bn_from_text, bn_from_text_pol. destruct (split_int is_bindigit 98 66 sg m ds Hsg Hm Hne Hd) as (E1 & E2).
     rewrite E2. unfold split_bin. rewrite E1.
     destruct (from_bin_correct (match sg with [45] => true | _ => false end) ds) as (x & A & B & C).
     { eapply Forall_of_forallb; [apply bindigit_ok | exact Hd]. }
     rewrite A. exists x. rewrite Sv. auto.
-  - intros m Hm Hd. unfold bn_from_text.
+  - intros m Hm Hd. unfold bn_from_text, bn_from_text_pol.
     assert (Eb : has_prefix 98 66 (sg ++ 48 :: m :: ds) = false).
     { unfold has_prefix. destruct Hsg as [->|[->| ->]]; cbn [app Z.eqb Pos.eqb orb]; lia. }
     rewrite Eb. destruct (split_int is_hexdigit 120 88 sg m ds Hsg Hm Hne Hd) as (E1 & E2).
@@ -147,7 +147,7 @@ Proof.
     (* the text of a decimal integer takes the decimal branch, and lower-casing leaves it alone *)
     assert (G : forall sg', sign_ok sg' -> bn_from_text (sg' ++ ds) =
               match bn_from_dec (sg' ++ ds) with Ok (LInt x) => TInt x | Ok LFloat => TFloat | Err _ => TMalformed end).
-    { intros sg' Hs'. unfold bn_from_text.
+    { intros sg' Hs'. unfold bn_from_text, bn_from_text_pol.
       assert (El : map to_lower (sg' ++ ds) = sg' ++ ds).
       { rewrite map_app, (lower_digits ds Hd). f_equal. destruct Hs' as [->|[->| ->]]; reflexivity. }
       assert (P1 : forall m1 m2, (m1 = 98 /\ m2 = 66) \/ (m1 = 120 /\ m2 = 88) -> has_prefix m1 m2 (sg' ++ ds) = false).
@@ -180,3 +180,30 @@ Example lit_example :
   split_hex [48; 120; 46; 56] = Some (false, [48], Some [56], None) /\ split_bin [48; 98; 49; 112] = None /\
   bn_from_text [45; 48; 120; 70; 102] = TInt (frominteger (-255)) /\ bn_from_text [48; 98] = TMalformed.
 Proof. split; [|split; [|split; [|split]]]; vm_compute; reflexivity. Qed.
+
+(* ---- malformed binary / hexadecimal texts: a failed pattern match is an error, never a number ---- *)
+Lemma literal_match_fact : literal_match_checked = true. Proof. reflexivity. Qed.
+
+Lemma from_text_pol_malformed : forall s,
+  (has_prefix 98 66 s = true -> split_bin s = None -> bn_from_text_pol true s = TMalformed) /\
+  (has_prefix 98 66 s = false -> has_prefix 120 88 s = true -> split_hex s = None -> bn_from_text_pol true s = TMalformed).
+Proof.
+  intros s. split.
+  - intros P E. unfold bn_from_text_pol. rewrite P, E. reflexivity.
+  - intros P Q E. unfold bn_from_text_pol. rewrite P, Q, E. reflexivity.
+Qed.
+
+Lemma from_text_malformed : forall s,
+  (has_prefix 98 66 s = true -> split_bin s = None -> bn_from_text s = TMalformed) /\
+  (has_prefix 98 66 s = false -> has_prefix 120 88 s = true -> split_hex s = None -> bn_from_text s = TMalformed).
+Proof. unfold bn_from_text. rewrite literal_match_fact. exact from_text_pol_malformed. Qed.
+
+(* the four witnesses of the repaired defect: "0x3 ", "0xzz", "0x1p", "0b102" *)
+Example malformed_witnesses :
+  bn_from_text [48; 120; 51; 32] = TMalformed /\ bn_from_text [48; 120; 122; 122] = TMalformed /\
+  bn_from_text [48; 120; 49; 112] = TMalformed /\ bn_from_text [48; 98; 49; 48; 50] = TMalformed.
+Proof. split; [|split; [|split]]; vm_compute; reflexivity. Qed.
+
+(* with the assertion on the second result a failed hexadecimal match is not an error in the model (the code goes on to tonumber) *)
+Lemma literal_check_neg_needed : bn_from_text_pol false [48; 120; 51; 32] <> TMalformed /\ split_hex [48; 120; 51; 32] = None.
+Proof. split; [vm_compute; discriminate | vm_compute; reflexivity]. Qed.
